@@ -32,11 +32,21 @@ structure Cfg where
   validatesULen : Bool
   /-- `readNextBlock` compares `CompressedSize` with the remaining file size before `make` -/
   boundsCompressedSize : Bool
+  /-- a block whose payload is cut short (fewer bytes left than `CompressedSize`) ends the data
+      like a short header does (`io.EOF`), instead of failing the load (`io.ErrUnexpectedEOF`);
+      read from both sites: the size pre-check and the `io.ReadFull` error mapping -/
+  shortPayloadIsEOF : Bool
   /-- `ParseBlock` bounds the decoder's declared output length before decompressing -/
   boundsDecodedLen : Bool
   /-- `ParseBlock` requires the counted entries to consume the whole decoded payload (so the
       16-bit `EntryCount`, which no checksum covers, cannot be changed unnoticed) -/
   parseConsumesAll : Bool
+  /-- `openExistingFile` walks the block headers and truncates the file behind the last block that
+      is entirely there (a torn tail would hide every block appended after it) -/
+  openCutsTornTail : Bool
+  /-- `chroniclerV2.Write` tells its caller when `WriteEntry` refused an entry (it has a result that
+      carries the refusal); `false`: the refusal is only logged and the entry silently dropped -/
+  chronSurfacesError : Bool
   /-- `ReadSwampName` falls back to `LoadIndex` (metadata entry) for non-V3 files -/
   v2Fallback : Bool
   /-- `createNewFile` refuses a swamp name longer than 65535 bytes -/
@@ -47,7 +57,7 @@ structure Cfg where
 def goodCfg : Cfg :=
   { rejectsEmptyKey := true, rejectsLongKey := true, flushGe := true, flushAtCount := true,
     deleteRemoves := true, validatesCrc := true, validatesULen := true, boundsCompressedSize := true,
-    boundsDecodedLen := true, parseConsumesAll := true, v2Fallback := true, rejectsLongName := true }
+    boundsDecodedLen := true, parseConsumesAll := true, shortPayloadIsEOF := true, chronSurfacesError := true, openCutsTornTail := true, v2Fallback := true, rejectsLongName := true }
 
 /-- canonical error classes of the reader -/
 inductive Err where
